@@ -41,6 +41,8 @@ structure Region where
   relCount : Nat
   /-- size of the `MemoryReservation` held in `Bytes::reservation`, if any -/
   claimed : Option Nat
+  /-- which pool that reservation was made in (meaningful only while `claimed` is `some`) -/
+  claimPool : Nat
 deriving DecidableEq, Repr
 
 /-- one `Buffer` -/
@@ -71,9 +73,8 @@ structure State where
   regions : List Region
   owners : List Owner
   slots : List Slot
-  /-- `TrackingMemoryPool::used()` -/
-  pool : Nat
-deriving Repr
+  /-- `TrackingMemoryPool::used()` of every pool of the program (a family indexed by `Nat`) -/
+  pool : Nat → Nat
 
 /-- `Σ f` over a list -/
 def sumMap {α : Type} (f : α → Nat) : List α → Nat
@@ -117,8 +118,12 @@ def ownerRefs (s : State) (o : Nat) : Nat :=
 def Region.claimedCap (reg : Region) : Nat :=
   if reg.released then 0 else match reg.claimed with | some _ => reg.cap | none => 0
 
-/-- **what the pool must report**: Σ capacity of live claimed regions -/
-def poolExpected (s : State) : Nat := sumMap Region.claimedCap s.regions
+/-- **what pool `p` must report**: Σ capacity of the live regions whose reservation is in `p` -/
+def poolExpected (s : State) (p : Nat) : Nat :=
+  sumMap (fun reg => if reg.claimPool = p then reg.claimedCap else 0) s.regions
+
+/-- number of pools the decidable check below looks at (the drivers use pools `0 … 2`) -/
+def numPools : Nat := 3
 
 /-- the bytes of a region (`[]` if it does not exist) -/
 def regionBytes (s : State) (r : Nat) : List Nat :=
@@ -133,7 +138,7 @@ def view (s : State) (h : Handle) : List Nat := ((regionBytes s h.region).drop h
 every state it visits; the theorems prove it for every history):
 * a region is released iff nothing references it, and then exactly once;
 * an owner has been dropped iff nothing references it, and then exactly once;
-* the pool reports the total capacity of live claimed regions. -/
+* every pool reports the total capacity of the live regions claimed in it. -/
 def specOk (s : State) : Bool :=
   (List.range s.regions.length).all (fun r =>
     match s.regions[r]? with
@@ -143,6 +148,6 @@ def specOk (s : State) : Bool :=
     match s.owners[o]? with
     | some ow => ow.drops == (if ownerRefs s o == 0 then 1 else 0)
     | none => true) &&
-  (s.pool == poolExpected s)
+  (List.range numPools).all (fun p => s.pool p == poolExpected s p)
 
 end ArrowModel.C16
